@@ -13,7 +13,8 @@ from .builtins_ import EnumIter, RevIter, RangeVal
 
 class LoopSpec:
     def __init__(self, invariant=None, variant=None, havoc=(), types=None, unroll=None, role=None,
-                 index="idx", pure=False, modifies=()):
+                 index="idx", pure=False, modifies=(), ghost=None):
+        self.ghost = dict(ghost or {})    # name -> spec expression, bound as __name at the start of each iteration
         self.invariant = [invariant] if isinstance(invariant, str) else list(invariant or [])
         self.variant = variant
         self.havoc = list(havoc)          # extra spec-language paths to havoc ("context.scope.lines")
@@ -241,6 +242,8 @@ def cut_loop(E, stmt, st, spec, ordinal, kind):
                 continue
             if spec.variant is not None:
                 v0 = E.spec_value(s2, spec.variant)
+            for gname, gexpr in spec.ghost.items():
+                s2.locals["__" + gname] = E.spec_value(s2, gexpr)
             for s3, fl in E.exec_block(stmt.body, s2):
                 if fl[0] in ("next", "continue"):
                     check_heap_frame(E, s3, snap, spec, ordinal, [stmt])
